@@ -97,9 +97,10 @@ def case(chunk, frag, content):
     return "%d\t%s\t%s" % (chunk, " ".join(str(f) for f in frag), esc(content))
 
 
-def mutate(rng, text):
+def mutate(rng, text, kind=None):
     """Files that are NOT in the layout."""
-    kind = rng.randrange(14)
+    if kind is None:
+        kind = rng.randrange(14)
     if kind == 0 and text:                         # truncated anywhere
         return text[:rng.randrange(len(text))]
     if kind == 1:                                  # missing blank line between tags and movetext
@@ -159,7 +160,13 @@ def gen(rng, tier):
         sizes = range(1, 301) if thorough else rng.sample(range(1, 301), 12)
         for chunk in sizes:
             cases.append(case(chunk, fragmentation(rng, chunk, len(text)), text))
-    # --- malformed stream
+    # --- malformed stream: every kind of fault a few times for sure, then random combinations
+    for kind in range(14):
+        for _ in range(40 if thorough else 4):
+            bn, cm, res, nl = rng.choice(combos)
+            text = mutate(rng, layout_file(rng, rng.randint(1, 3), bn, cm, res, nl, plies=rng.choice([1, 2, 5, 9])), kind)
+            chunk = rng.choice(CHUNKS + [4, 11, 33])
+            cases.append(case(chunk, fragmentation(rng, chunk, len(text)), text))
     for _ in range(12000 if thorough else 120):
         bn, cm, res, nl = rng.choice(combos)
         text = layout_file(rng, rng.randint(1, 3), bn, cm, res, nl, plies=rng.choice([0, 1, 2, 5, 9]))
